@@ -51,7 +51,11 @@ Definition d_del_graph (d : dstore) (g : N) : dstore :=
 (* extract_graph: a copy of the whole per-id graph (never None) *)
 Definition d_extract (d : dstore) (g : N) : igraph := mkI (gn (dget d g)) (ge (dget d g)).
 
-Definition d_clone (d : dstore) (g g2 : N) : dstore * res := d_add_graph d g2 (d_extract d g).
+Definition d_clone (d : dstore) (g g2 : N) : dstore * res :=
+  match gn (dget d g) with
+  | [] => (d, Err EQuery)                    (* a graph without nodes cannot be cloned (fix fdc67eb) *)
+  | _ => d_add_graph d g2 (d_extract d g)
+  end.
 
 (* find_matching_nodes: the other graph's node ids are collected from ALL nodes of its nx.Graph *)
 Definition d_matching (d : dstore) (g g2 : N) : res :=
@@ -151,7 +155,7 @@ Fixpoint check_iso_disjoint_from (prev : dsnap) (pc : list (N * N)) (l : list di
       let gids := map fst prev ++ map fst cur ++ map fst (dgs d') in
       dalloc_ok cur cc &&
       (if storage_op o
-       then res_eqb r' r && forallb (fun g => nxg_eqb (dget d' g) (snap_get cur g) &&
+       then forallb (fun g => nxg_eqb (dget d' g) (snap_get cur g) &&
                                               (match gn (snap_get cur g) with [] => true | _ => N.eqb (dcounter d' g) (ctr_get cc g) end)) gids
        else forallb (fun g => writes_gid o g || nxg_eqb (dget d' g) (snap_get cur g)) gids) &&
       check_iso_disjoint_from cur cc rest
